@@ -12,6 +12,7 @@ import sys
 import tempfile
 import contextlib
 from concurrent.futures import ProcessPoolExecutor
+import subprocess
 
 
 def _scratch_root():
@@ -153,8 +154,47 @@ def _run_variant(args):
         shutil.rmtree(d, ignore_errors=True)
 
 
+def _run_benign(args):
+    prop, root, bdir = args
+    name = os.path.basename(bdir)
+    d = tempfile.mkdtemp(prefix="bnpsa_ben_", dir=_scratch_root())
+    try:
+        shutil.copytree(os.path.join(root, "bionumpy"), os.path.join(d, "bionumpy"), ignore=shutil.ignore_patterns("__pycache__"))
+        p = subprocess.run(["patch", "-p1", "-s", "-i", os.path.join(bdir, "patch.diff")], cwd=d, capture_output=True, text=True)
+        if p.returncode != 0:
+            return {"change": name, "status": "patch-failed"}
+        from .report import Ctx
+        mod = importlib.import_module(f"bnpsa.rules.{prop.lower()}")
+        with contextlib.redirect_stdout(io.StringIO()):
+            ctx = Ctx(prop, "quick", d, 0, write=False)
+            ctx.run_rules(mod.RULES)
+        known = {k.get("key") for k in ctx.known}
+        fired = sorted({v["rule"] for v in ctx.violations if v.get("key") not in known})
+        return {"change": name, "status": "FALSE-ALARM" if fired else ("cannot-follow" if ctx.analysis_errors else "silent"), "fired": fired,
+                "analysis_errors": [e[:140] for e in ctx.analysis_errors[:3]]}
+    finally:
+        shutil.rmtree(d, ignore_errors=True)
+
+
+def run_benign_for_property(prop: str, root: str, jobs: int = 8) -> dict:
+    """Behaviour-preserving changes written by sub-agents for THIS property (/verif/benign/<prop>-k*): the property's own check on each of them.  A violation is a
+    false alarm; 'cannot-follow' is exit 2."""
+    here = os.path.join(os.path.dirname(os.path.dirname(os.path.abspath(__file__))), "benign")
+    dirs = sorted(os.path.join(here, d) for d in os.listdir(here) if d.startswith(prop + "-") and os.path.isfile(os.path.join(here, d, "patch.diff"))) if os.path.isdir(here) else []
+    if not dirs:
+        return {"changes": 0}
+    with ProcessPoolExecutor(max_workers=min(jobs, len(dirs))) as ex:
+        res = list(ex.map(_run_benign, [(prop, root, d) for d in dirs]))
+    for r in res:
+        if r["status"] == "FALSE-ALARM":
+            print(f"BENIGN-ALARM property={prop} change={r['change']} {r['fired']} (listed in benign/MATRIX.md; does not change the exit code)")
+    return {"changes": len(res), "silent": sum(r["status"] == "silent" for r in res), "cannot_follow": sum(r["status"] == "cannot-follow" for r in res),
+            "false_alarms": sum(r["status"] == "FALSE-ALARM" for r in res), "results": res}
+
+
 def run_refactor_variants(prop: str, root: str, jobs: int = 11) -> dict:
-    names = ["identity", "nodoc", "rename", "compvars", "tempret", "elimtemps", "ifflip", "elseify", "guardswap", "addassert", "kwreorder"]
+    names = ["identity", "nodoc", "rename", "compvars", "tempret", "elimtemps", "ifflip", "elseify", "guardswap", "addassert", "kwreorder",
+             "cmpflip", "msgs", "typehints", "tuplelist", "lenzero", "literals", "ifexp2stmt", "methodorder"]
     with ProcessPoolExecutor(max_workers=jobs) as ex:
         res = list(ex.map(_run_variant, [(prop, root, n) for n in names]))
     for r in res:
